@@ -422,7 +422,7 @@ func r158(c *Ctx, r *R) {
 }
 
 func init() {
-	register(&Rule{ID: "R17.6", Props: []string{"C17"}, Floor: 3, Title: "a removed peer's raft data is really discarded: the backup rotation vacates the oldest slot recursively before renaming, the data folder is moved or removed on every cleaning path, and no flat os.Remove is used on these folders", Run: r176})
+	register(&Rule{ID: "R17.6", Props: []string{"C17", "C14"}, Floor: 3, Title: "a removed peer's raft data is really discarded: the backup rotation vacates the oldest slot recursively before renaming, the data folder is moved or removed on every cleaning path, and no flat os.Remove is used on these folders", Run: r176})
 }
 
 // r176: "a removed peer ... discards its consensus data" (C17). CleanupRaft
@@ -490,4 +490,138 @@ func r176(c *Ctx, r *R) {
 		}
 	}
 	r.Check(okPaths, "cleanup:every-path", cr.Pos(), "every exit of CleanupRaft is dominated by the removal or the backup of the data folder", "CleanupRaft can return without having removed or backed up the data folder")
+}
+
+func init() {
+	register(&Rule{ID: "R04.7", Props: []string{"C04"}, Floor: 5, Title: "unpinning sharded content also unpins its cluster-DAG and shard entries: the meta arm logs the unpin only after unpinClusterDag succeeded, which unpins every CID of the list built from the meta pin's reference and the cluster DAG's links", Run: r047})
+}
+
+func r047(c *Ctx, r *R) {
+	// (1) Unpin: meta arm
+	if f := c.fn(r, "", "Cluster.Unpin"); f != nil {
+		meta := c.constIn("api", "MetaType")
+		n := 0
+		for _, ci := range findCalls(f, false, c04Sinks[1]) {
+			isT := func(x ssa.Value) bool { fl, _ := fieldLoad(x); return fl != nil && fl.Name() == "Type" }
+			if !guardedBy(ci.Block(), func(g Guard) bool { return gEq(g, meta, true, isT) }) {
+				continue
+			}
+			n++
+			ok := guardedBy(ci.Block(), func(g Guard) bool { return gCallErrNil(g, ModPath+".Cluster).unpinClusterDag") })
+			r.Check(ok, "Unpin:meta-after-dag", ci.Pos(), "the meta entry is unpinned only after its cluster-DAG and shard entries were", "Unpin removes the meta entry of sharded content without (successfully) unpinning its cluster-DAG and shard entries first: they stay in the pinset for ever")
+		}
+		if n == 0 {
+			r.Bad("Unpin:meta-after-dag", f.Pos(), "no LogUnpin under pin.Type == MetaType in Unpin")
+		}
+	}
+	// (2) unpinClusterDag: every listed CID is unpinned
+	if f := c.fn(r, "", "Cluster.unpinClusterDag"); f != nil {
+		lus := findCalls(f, false, c04Sinks[1])
+		if len(lus) != 1 {
+			r.Bad("unpinClusterDag:LogUnpin", f.Pos(), "unpinClusterDag has %d LogUnpin calls (expected one, in the loop over the listed CIDs)", len(lus))
+		} else {
+			lu := lus[0]
+			// argument: PinCid(element of cidsFromMetaPin's list)
+			fromList := false
+			if pc, _ := originCall(callArgs(lu.Common())[1]); pc != nil && nameMatches(callName(pc.Common()), "api.PinCid") {
+				if ld, ok := pc.Common().Args[0].(*ssa.UnOp); ok {
+					if ia, ok := ld.X.(*ssa.IndexAddr); ok {
+						if src, idx := originCall(ia.X); src != nil && idx == 0 && nameMatches(callName(src.Common()), ModPath+".Cluster).cidsFromMetaPin") {
+							fromList = true
+						}
+					}
+				}
+			}
+			r.Check(fromList, "unpinClusterDag:element", lu.Pos(), "each element of the list computed from the meta pin is unpinned", "unpinClusterDag does not unpin the elements of cidsFromMetaPin's list")
+			// the sweep is complete: the loop is left after a LogUnpin only
+			// by returning that call's error
+			b := lu.Block()
+			var header *ssa.BasicBlock
+			for d := b; d != nil; d = d.Idom() {
+				if inNaturalLoop(b, d) {
+					header = d
+					break
+				}
+			}
+			okSweep := header != nil
+			if header != nil {
+				seen := map[*ssa.BasicBlock]bool{}
+				var walk func(x *ssa.BasicBlock)
+				walk = func(x *ssa.BasicBlock) {
+					if seen[x] || x == header {
+						return
+					}
+					seen[x] = true
+					if !inNaturalLoop(x, header) {
+						// allowed only as the error return of this LogUnpin
+						ret, isRet := x.Instrs[len(x.Instrs)-1].(*ssa.Return)
+						if !isRet || !guardedBy(x, func(g Guard) bool {
+							return gNil(g, true, func(v ssa.Value) bool { cc, _ := originCall(v); return ssa.Value(cc) == lu.(ssa.Value) })
+						}) {
+							okSweep = false
+						}
+						_ = ret
+						return
+					}
+					for _, n := range x.Succs {
+						walk(n)
+					}
+				}
+				for _, n := range b.Succs {
+					walk(n)
+				}
+			}
+			r.Check(okSweep, "unpinClusterDag:sweep", lu.Pos(), "the loop over the listed CIDs is left early only with the error of a failed unpin", "unpinClusterDag can stop before every listed CID was unpinned without reporting an error")
+		}
+	}
+	// (3) cidsFromMetaPin: the list holds the reference and every link
+	fd, pkg := c.decl(r, "", "Cluster.cidsFromMetaPin")
+	if fd == nil {
+		return
+	}
+	mentionsSel := func(n ast.Node, name string) bool {
+		found := false
+		ast.Inspect(n, func(x ast.Node) bool {
+			if se, ok := x.(*ast.SelectorExpr); ok && se.Sel.Name == name {
+				found = true
+			}
+			return true
+		})
+		return found
+	}
+	isAppend := func(n ast.Node) bool {
+		found := false
+		ast.Inspect(n, func(x ast.Node) bool {
+			if call, ok := x.(*ast.CallExpr); ok {
+				if id, ok := call.Fun.(*ast.Ident); ok && id.Name == "append" {
+					if _, isB := pkg.TypesInfo.Uses[id].(*types.Builtin); isB {
+						found = true
+					}
+				}
+			}
+			return true
+		})
+		return found
+	}
+	refAt, linksAt, retAt := -1, -1, -1
+	for i, st := range fd.Body.List {
+		switch x := st.(type) {
+		case *ast.AssignStmt:
+			if isAppend(x) && mentionsSel(x, "Reference") {
+				refAt = i
+			}
+		case *ast.RangeStmt:
+			if call, ok := ast.Unparen(x.X).(*ast.CallExpr); ok && strings.HasSuffix(funcFullName(pkg, call), ".Links") && isAppend(x.Body) && mentionsSel(x.Body, "Cid") {
+				linksAt = i
+			}
+		case *ast.ReturnStmt:
+			if len(x.Results) == 2 {
+				if id, ok := x.Results[1].(*ast.Ident); ok && id.Name == "nil" {
+					retAt = i
+				}
+			}
+		}
+	}
+	r.Check(refAt >= 0 && retAt > refAt, "cidsFromMetaPin:reference", fd.Pos(), "the cluster-DAG CID (the meta pin's reference) is added to the list before the successful return", "cidsFromMetaPin's successful result no longer contains the meta pin's reference (the cluster-DAG entry is never unpinned)")
+	r.Check(linksAt >= 0 && retAt > linksAt, "cidsFromMetaPin:links", fd.Pos(), "every link of the cluster DAG (the shard entries) is added to the list before the successful return", "cidsFromMetaPin's successful result no longer contains the cluster DAG's links (shard entries are never unpinned)")
 }
